@@ -155,9 +155,10 @@ func c06Check(c c06Case) vfResult {
 					switch o.Op {
 					case "detect":
 						m := Detect(inputs[o.In%len(inputs)])
+						// publish first: other goroutines may call the accessors at the same time as the owner
+						shared[g].Store(m)
 						ob.res = vfChainStr(m)
 						_ = m.Is(m.String())
-						shared[g].Store(m)
 					case "inspect":
 						// accessor methods on values returned to OTHER goroutines
 						for i := range shared {
@@ -412,7 +413,7 @@ func c06Gen(t *rapid.T) c06Case {
 			case 5, 6:
 				prog = append(prog, c06Op{Op: "lookup", Name: rapid.SampledFrom(names).Draw(t, "name")})
 			case 7:
-				if rapid.Bool().Draw(t, "insp") {
+				if rapid.IntRange(0, 2).Draw(t, "insp") > 0 {
 					prog = append(prog, c06Op{Op: "inspect"})
 				} else {
 					prog = append(prog, c06Op{Op: "setlimit", Limit: rapid.SampledFrom([]uint32{0, 1, 5, 64, 3072, 1 << 20}).Draw(t, "lim")})
